@@ -258,11 +258,27 @@ def generate(units):
 
 
 def assumed_contracts():
-    """List of external_body items of the shim (the assumption inventory)."""
+    """The assumption inventory: every `external_body` item of the shim with its full contract text."""
     t = open(SHIM).read()
     res = []
-    for m in re.finditer(r"#\[verifier::external_body\]\s*\n\s*((?:pub )?fn\s+\w+[^\n]*)", t):
-        res.append(m.group(1).strip())
+    for m in re.finditer(r"#\[verifier::external_body\]\s*\n", t):
+        i = m.end()
+        # the item header + spec clauses run up to the line that opens the body
+        j = t.find("\n    {", i)
+        k = t.find("\n{", i)
+        cands = [x for x in (j, k) if x >= 0]
+        end = min(cands) if cands else i + 200
+        hdr_end = t.find("{\n", i)
+        if hdr_end >= 0 and hdr_end < end:
+            end = hdr_end
+        txt = " ".join(l.strip() for l in t[i:end].strip().split("\n"))
+        # preceding doc comment says what kind of assumption it is
+        doc = ""
+        ls = t.rfind("\n", 0, m.start() - 1)
+        prev = t[t.rfind("\n", 0, ls) + 1:m.start()].strip() if ls > 0 else ""
+        if "ASSUMED" in prev:
+            doc = prev.lstrip("/ ").strip()
+        res.append((txt[:700] + (" // " + doc[:200] if doc else "")))
     return res
 
 
